@@ -71,8 +71,19 @@ func runManuf(c ManufCase) (res ev.Result) {
 	v := c.value()
 	want := refBuild(c)
 	var got []byte
+	// the payload is handed over as a slice with spare capacity behind it: building the message
+	// must not write into memory of the caller
+	spare := []byte{0xA5, 0x5A, 0xA5, 0x5A}
+	backing := append(append([]byte{}, v.SendingData...), spare...)
+	if !c.Request {
+		v.SendingData = backing[:len(v.SendingData)]
+	}
 	if p := ev.Try(func() { got = v.SysEx() }); p != "" {
 		res.Violation = "SysEx() " + p
+		return
+	}
+	if !bytes.Equal(backing[len(backing)-4:], spare) || (!c.Request && !bytes.Equal(backing[:len(c.Data)], c.Data)) {
+		res.Violation = fmt.Sprintf("SysEx() wrote into the caller's memory: the bytes behind the payload slice changed from % X to % X", spare, backing[len(backing)-4:])
 		return
 	}
 	cls := "dataset"
@@ -108,6 +119,28 @@ func runManuf(c ManufCase) (res ev.Result) {
 	}
 	if back == nil || !equalManuf(*back, v) {
 		res.Violation = fmt.Sprintf("Parse(SysEx(v)) = %+v, want %+v", back, v)
+		return
+	}
+	// parse, change the address of the parsed value, build again: the bytes that were parsed
+	// must not change and the rebuilt message must parse to the changed value
+	raw := append([]byte{}, got...)
+	if p := ev.Try(func() {
+		pv, err := sysex.Parse(raw)
+		if err != nil {
+			panic(err)
+		}
+		pv.Address[0] ^= 0x15
+		pv.Address[2] = (pv.Address[2] + 1) & 0x7F
+		re := pv.SysEx()
+		if !bytes.Equal(raw, got) {
+			panic(fmt.Sprintf("rebuilding a parsed and modified value changed the bytes it was parsed from: % X -> % X", got, raw))
+		}
+		pv2, err := sysex.Parse(re)
+		if err != nil || !equalManuf(*pv2, *pv) {
+			panic(fmt.Sprintf("parse - modify - build - parse: %v, got %+v want %+v", err, pv2, pv))
+		}
+	}); p != "" {
+		res.Violation = p
 		return
 	}
 	// single byte corruptions of address / payload|size / checksum
